@@ -1183,10 +1183,10 @@ int yr_parser_reduce_string_identifier(
   {
     if (compiler->loop_for_of_var_index >= 0)  // inside a loop ?
     {
-      yr_parser_emit_with_arg(
-          yyscanner, OP_PUSH_M, compiler->loop_for_of_var_index, NULL, NULL);
+      FAIL_ON_ERROR(yr_parser_emit_with_arg(
+          yyscanner, OP_PUSH_M, compiler->loop_for_of_var_index, NULL, NULL));
 
-      yr_parser_emit(yyscanner, instruction, NULL);
+      FAIL_ON_ERROR(yr_parser_emit(yyscanner, instruction, NULL));
 
       YR_RULE* current_rule = _yr_compiler_get_rule_by_idx(
           compiler, compiler->current_rule_idx);
